@@ -421,6 +421,35 @@ def run(tier):
                 chk.violation({'kind': 'namespace', 'source': a_, 'expected': '.x{%s}' % b_, 'actual': ra[1] if ra[0] == 'ok' else list(ra[:3])})
                 break
     stats['fixed_families'] = len(fixed)
+    # ---- a call equals its body written out by hand with the arguments in place, in positions the random programs do not reach:
+    #      a caller-local variable shadowing an outer one inside an argument (seeded C05-5), parameters in media queries with a
+    #      same-named variable defined before or after (seeded C07-6, repaired C05-param-in-media-query), calls inside an @media block
+    #      of a rule (repaired C05-call-in-media)
+    equiv = []
+    for outer, local, arg, val in (('10px', '20px', '@w + 1', '21px'), ('10px', '20px', '@w', '20px'), ('3', '4', '@w * 2', '8'), ('1em', '2em', '@w', '2em')):
+        equiv.append(('@w: %s;\n.m(@x) { width: @x; }\n.a { @w: %s; .m(%s); }\n' % (outer, local, arg), '@w: %s;\n.a { @w: %s; width: %s; }\n' % (outer, local, val)))
+        equiv.append(('@w: %s;\n.m(@x; @y: 2px) { margin: @x @y; }\n.a { .b { @w: %s; .m(%s); } }\n' % (outer, local, arg), '.a { .b { margin: %s 2px; } }\n' % val))
+    for pre, post in (('', '@w: 9px;'), ('@w: 1px;', ''), ('', '')):
+        equiv.append(('%s .m(@w) { .k { @media screen and (min-width: @w) { x: y } } @media (max-width: @w) { z: v } } .a, .b { .m(5px); } %s' % (pre, post),
+                      '.a, .b { .k { @media screen and (min-width: 5px) { x: y } } @media (max-width: 5px) { z: v } }'))
+        equiv.append(('%s .m(@q; @w: 2px) { @media (min-width: @w) { x: @q } } .a { .m(5px; 7px); } .b { .m(6px); } %s' % (pre, post),
+                      '.a { @media (min-width: 7px) { x: 5px } } .b { @media (min-width: 2px) { x: 6px } }'))
+    for body, inl in (('.q{x:y}', '.q{x:y}'), ('&:hover{x:y}', '&:hover{x:y}'), ('top:0; .q{x:y} &-s{left:0}', 'top:0; .q{x:y} &-s{left:0}')):
+        equiv.append(('.m(){%s} .a{@media print{.m();}}' % body, '.a{@media print{%s}}' % inl))
+        equiv.append(('.m(){%s} .a{.b{@media print{@media (color){.m();}}}}' % body, '.a{.b{@media print{@media (color){%s}}}}' % inl))
+        equiv.append(('.m(){%s} @media print{.a{.m();}}' % body, '@media print{.a{%s}}' % inl))
+    eres = C.compile_many([(a_, dict(minify=True)) for a_, _b in equiv] + [(b_, dict(minify=True)) for _a, b_ in equiv])
+    for k, (a_, b_) in enumerate(equiv):
+        ra, rb = eres[k], eres[len(equiv) + k]
+        chk.count(('equiv', a_), nontrivial=True)
+        if rb[0] != 'ok':
+            continue          # the hand-inlined text is outside what the compiler accepts: not this oracle's business
+        if ra[0] != 'ok' or ra[1].strip() != rb[1].strip():
+            chk.violation({'kind': 'inline-equivalence', 'source': a_, 'inlined': b_, 'expected': rb[1], 'actual': ra[1] if ra[0] == 'ok' else list(ra[:3]),
+                           'problem': 'the sheet with the mixin call compiles differently from the sheet with the body written in place'})
+            if len(chk.violations) > 5:
+                break
+    stats['inline_equivalences'] = len(equiv)
     # ---- repeated expansion (see REPEAT_DECLS)
     nrep = 120 if tier == 'quick' else 2500
     rcases = [repeat_case(rng) for _ in range(nrep)]
